@@ -15,6 +15,7 @@ mod runner;
 mod gen;
 mod scen_body;
 mod scen_head;
+mod scen_graph;
 mod scen_exchange;
 mod world;
 mod reqgen;
@@ -221,6 +222,20 @@ fn props() -> Vec<Prop> {
             assumptions: &[A_COMMON, "a bare 100 only (100 with fields is outside the statement)", "no second interim 100"],
             cells_total: 0,
             cells_what: "",
+            exhaustive_note: "",
+        },
+        Prop {
+            id: "C09",
+            scenario: "graph",
+            run: scen_graph::c09,
+            quick: 100_000,
+            thorough: 4_000_000,
+            subs: &["walks"],
+            level: "exploration",
+            rule: "random walks (up to 90 calls) over all public methods of the current flow state - accessors, header(), send_body_despite_method(), I/O with drawn slices, readiness query, advance (also premature: terminal probe), calls repeated after they have decided (try_read_100, try_response, as_new_flow, finishing writes) - interleaved with the arrival of a scripted server stream (interim 100 / refusal / final with every framing, redirects with/without Location, 304, 1xx) for generated valid request configurations; the flow produced by as_new_flow is walked through Prepare and SendRequest; oracle: no panic, readiness query iff the model says complete, proceed() yields a state iff ready, successor = documented graph on ground truth; non-trivial = reached Cleanup, a terminal probe, or >=4 calls; distinct = abstract trace (state, choice per step)",
+            assumptions: &[A_COMMON, "permitted = callable on the typestate the driver holds, <= 60 added headers", "after a repeated decisive call only 'no panic' and 'counts bounded' are demanded; the successor oracle uses the first decision", "a look at further server bytes after a consumed 100 makes the Await100 successor undecided"],
+            cells_total: 77,
+            cells_what: "(state x call kind) pairs (64) + graph edges taken (13)",
             exhaustive_note: "",
         },
     ]
